@@ -35,19 +35,37 @@ pub struct SslError { _p: () }
 pub struct SslConnector { _p: () }
 #[verifier::external_body]
 pub struct ConnectConfiguration { _p: () }
-/// an OpenSSL session: `verify_host()` is the name it sends as SNI and verifies the peer certificate against
+/// an OpenSSL session: `checks_host()` — the peer certificate is verified against a hostname (not only against the
+/// trusted issuers); `verify_host()` — that hostname
 #[verifier::external_body]
 pub struct Ssl { _p: () }
-impl Ssl { pub uninterp spec fn verify_host(&self) -> Seq<u8>; }
+#[verifier::external_body]
+pub struct SslContextRef { _p: () }
+impl Ssl {
+    pub uninterp spec fn verify_host(&self) -> Seq<u8>;
+    pub uninterp spec fn checks_host(&self) -> bool;
+    /// openssl::ssl::Ssl::new: a session straight from the context — chain verification as configured there, but NO
+    /// hostname in the X509 verify parameters
+    #[verifier::external_body]
+    pub fn new(ctx: &SslContextRef) -> (r: Result<Ssl, ErrorStack>) ensures r matches Ok(s) && !s.checks_host() { unimplemented!() }
+    /// Ssl::set_hostname: the SNI extension only; what is verified does not change
+    #[verifier::external_body]
+    pub fn set_hostname(&mut self, h: &Str) -> (r: Result<(), ErrorStack>)
+        ensures r is Ok, final(self).checks_host() == old(self).checks_host(), final(self).verify_host() == old(self).verify_host(),
+    { unimplemented!() }
+}
 impl SslConnector {
     /// a misconfigured connector makes the code `.expect()`-panic: intended, outside the property
     #[verifier::external_body]
     pub fn configure(&self) -> (r: Result<ConnectConfiguration, ErrorStack>) ensures r is Ok { unimplemented!() }
+    #[verifier::external_body]
+    pub fn context(&self) -> (r: &SslContextRef) { unimplemented!() }
 }
 impl ConnectConfiguration {
+    /// ConnectConfiguration::into_ssl(domain): SNI + the hostname installed in the verify parameters
     #[verifier::external_body]
     pub fn into_ssl(self, domain: &Str) -> (r: Result<Ssl, ErrorStack>)
-        ensures r matches Ok(s) && s.verify_host() == domain.bytes(),
+        ensures r matches Ok(s) && s.checks_host() && s.verify_host() == domain.bytes(),
     { unimplemented!() }
 }
 #[verifier::external_body]
@@ -55,15 +73,17 @@ impl ConnectConfiguration {
 pub struct AsyncSslStream<IO> { _p: core::marker::PhantomData<IO> }
 impl<IO> AsyncSslStream<IO> {
     pub uninterp spec fn verify_host(&self) -> Seq<u8>;
+    pub uninterp spec fn checks_host(&self) -> bool;
     pub uninterp spec fn io(&self) -> IO;
     #[verifier::external_body]
     pub fn new(ssl: Ssl, io: IO) -> (r: Result<AsyncSslStream<IO>, ErrorStack>)
-        ensures r matches Ok(s) && s.verify_host() == ssl.verify_host() && s.io() == io,
+        ensures r matches Ok(s) && s.verify_host() == ssl.verify_host() && s.checks_host() == ssl.checks_host() && s.io() == io,
     { unimplemented!() }
     /// the handshake itself (certificate validation included) is OpenSSL's and is NOT verified
     #[verifier::external_body]
     pub fn poll_connect(&mut self, cx: &mut Context<'_>) -> (r: Poll<Result<(), SslError>>)
-        ensures final(self).verify_host() == old(self).verify_host(), final(self).io() == old(self).io(),
+        ensures final(self).verify_host() == old(self).verify_host(), final(self).checks_host() == old(self).checks_host(),
+            final(self).io() == old(self).io(),
     { unimplemented!() }
 }
 pub struct Pin { }
@@ -137,7 +157,7 @@ impl TlsConnectorService {
 //@spec
     ensures
         // OpenSSL is asked to verify the peer against the REQUEST's hostname, on the request's own stream   [C19]
-        r.io matches Some(s) && s.verify_host() == stream.req.spec_hostname() && s.io() == stream.io,
+        r.io matches Some(s) && s.checks_host() && s.verify_host() == stream.req.spec_hostname() && s.io() == stream.io,
         r.stream matches Some(c) && c.req == stream.req,
 //@end
 }
@@ -152,7 +172,8 @@ impl<R: Host, IO> ConnectFut<R, IO> {
     ensures
         // success carries the original request and the stream the handshake ran on; a handshake failure is an error [C19]
         r matches Poll::Ready(Ok(out)) ==> Some(out.req) == (match old(self).stream { Some(c) => Some(c.req), None => None })
-            && out.io.verify_host() == old(self).io.unwrap().verify_host(),
+            && out.io.verify_host() == old(self).io.unwrap().verify_host()
+            && out.io.checks_host() == old(self).io.unwrap().checks_host(),
 //@end
 }
 
